@@ -435,9 +435,13 @@ OBLIGATIONS = [
 # ---------------------------------------------------------------------------------------------
 
 
-def _explore(res, name, K, D, pre, action, post, extra_caps=None, max_paths=300, on_violation=None, labels=None, cte_depth=None, allow_integrity=False, fixed=None, allow_exc=()):
+def _explore(res, name, K, D, pre, action, post, extra_caps=None, max_paths=300, on_violation=None, labels=None, cte_depth=None, allow_integrity=False, fixed=None, allow_exc=(), lazy_enums=False):
     """Generic inductive-step driver: fresh symbolic state, assume pre, run action natively, check post."""
     counts = {"paths": 0, "raised": 0}
+    if lazy_enums:
+        from vf.symsql import lazyenum
+
+        lazyenum.install()
 
     def body(run):
         wf = Wf(K=K, D=D, extra_caps=extra_caps or {}, labels=labels, fixed=fixed)
@@ -486,12 +490,35 @@ def _explore(res, name, K, D, pre, action, post, extra_caps=None, max_paths=300,
             else:
                 res.inconclusive.append(f"{name}: post-condition fails (clauses {which}) from state {content[:900]} (no replay defined)")
 
+    class _State:
+        """What on_path records, carried from forked exploration workers back to this process."""
+
+        def mark(self):
+            return (len(res.queries), len(res.violations), len(res.inconclusive), len(res.samples), dict(counts))
+
+        def since(self, mark):
+            q, v, i, sm, c = mark
+            return (res.queries[q:], res.violations[v:], res.inconclusive[i:], res.samples[sm:], {k: counts[k] - c.get(k, 0) for k in counts})
+
+        def absorb(self, payload):
+            q, v, i, sm, c = payload
+            res.queries.extend(q)
+            for viol in v:
+                if not any(x.key == viol.key for x in res.violations):
+                    res.violations.append(viol)
+            res.inconclusive.extend(i)
+            res.samples.extend(sm)
+            for k, n in c.items():
+                counts[k] = counts.get(k, 0) + n
+
+    workers = int(os.environ.get("VF_WORKERS", "1") or 1)
     ex = Explorer(max_paths=max_paths)
     try:
-        ex.explore(body, on_path)
+        ex.explore(body, on_path, workers=workers, state=_State())
     except Unsupported as exc:
         res.inconclusive.append(f"{name}: outside the encoded subset: {exc}")
     res.extra.setdefault("paths", {})[name] = counts["paths"]
+    res.extra.setdefault("workers", {})[name] = workers
     return counts
 
 
